@@ -40,6 +40,10 @@ def required(tier):
 
 
 def run(ctx):
+    from pgverif.mon.contracts import Contracts
+
+    con = Contracts(("reduce",))
+    con.install()
     mon = GssMonitor(check_closure=False)
     mon.install()
     maxlen = 5 if ctx.tier == "quick" else 6
@@ -50,6 +54,8 @@ def run(ctx):
             one_grammar(ctx, mon, name, g, alphabet, maxlen)
     finally:
         mon.uninstall()
+        con.uninstall()
+    con.report(ctx)
     for k, v in mon.totals.items():
         ctx.count("gss." + k, v)
 
